@@ -105,7 +105,8 @@ def teardown():
 
 # ---- inputs ------------------------------------------------------------------------
 # {"kinds": [bool...], "root": bool, "ops": [...]}; kinds[0] is always False (the master's own tree).
-# ops: ["c", i, local, fault]  fault = -1 (none) or k;  ["u", i];  ["p", i, j]  j = -1: the master;
+# ops: ["c", i, local, fault]  fault = -1 (none) or k;  ["u", i];  ["p", i, j, k]  j = -1: the master; k (optional) = -1: no stop revision,
+#      k >= 0: pull -r <k-th left-hand ancestor of the source tip>;
 #      ["b", i];  ["U", i]
 
 STD = [False, True, False]
@@ -135,6 +136,10 @@ def corpus():
         _case(STD, True, [["U", 1], ["c", 1, 0, -1], ["c", 1, 1, -1], ["c", 0, 0, -1], ["b", 1], ["c", 1, 0, -1], ["u", 1], ["c", 1, 0, -1]]),
         # two heavy checkouts: pull between them goes through the master
         _case([False, True, True, False], True, [["c", 1, 1, -1], ["p", 2, 1], ["c", 2, 0, -1], ["u", 1], ["c", 1, 1, -1], ["p", 2, 1], ["c", 3, 0, -1], ["p", 2, 1]]),
+        # pull -r from a third branch into a bound checkout: master and local both stop at the requested revision
+        _case([False, True, True], True, [["c", 2, 1, -1], ["c", 2, 1, -1], ["c", 2, 1, -1], ["p", 1, 2, 1], ["c", 1, 0, -1], ["p", 1, 2, 0], ["p", 0, 2, 5]]),
+        _case([False, True, True, False], True, [["c", 2, 1, -1], ["c", 2, 1, -1], ["p", 1, 2, 2], ["p", 1, 2, 1], ["p", 3, 2, 1], ["p", 1, -1, 1], ["u", 1], ["p", 1, 2, -1]]),
+        _case([False, True, True], False, [["c", 2, 1, -1], ["c", 2, 1, -1], ["p", 1, 2, 1], ["p", 1, 2, 3], ["U", 1], ["p", 1, 2, 0]]),
         _case([False, True, True], False, [["c", 1, 0, -1], ["c", 2, 0, -1], ["u", 2], ["c", 2, 1, -1], ["p", 1, 2], ["u", 0], ["c", 0, 0, -1]]),
     ]
 
@@ -163,7 +168,12 @@ def _gen_ops(rng, kinds, n):
             if not srcs:
                 ops.append(["u", i])
             else:
-                ops.append(["p", i, rng.choice(srcs)])
+                j = rng.choice(srcs)
+                if kinds[i] and rng.random() < 0.5:
+                    hs = [x for x in heavy if x != i]       # a third branch as source (goes through the master)
+                    if hs:
+                        j = rng.choice(hs)
+                ops.append(["p", i, j, rng.choice([0, 1, 1, 2, 3]) if rng.random() < 0.45 else -1])
         elif heavy:
             ops.append([rng.choice(["b", "U"]), rng.choice(heavy)])
         else:
@@ -174,7 +184,7 @@ def _gen_ops(rng, kinds, n):
 def cases(rng, tier):
     # exhaustive: every single operation and every pair (first op, second op) from a small alphabet
     alpha = [["c", 0, 0, -1], ["c", 1, 0, -1], ["c", 2, 0, -1], ["c", 1, 1, -1], ["c", 1, 0, 1], ["u", 1], ["u", 2],
-             ["p", 1, -1], ["p", 0, 1], ["U", 1]]
+             ["p", 1, -1], ["p", 0, 1], ["p", 0, 1, 1], ["U", 1]]
     for root in (True, False):
         for a in alpha:
             yield _case(STD, root, [a])
@@ -183,12 +193,27 @@ def cases(rng, tier):
         pairs = rng.sample(pairs, 24)
     for a, b in pairs:
         yield _case(STD, True, [a, b, ["c", 1, 0, -1], ["u", 1]])
-    n = 110 if tier == "quick" else 1000
+    # pull -r scenarios: a second heavyweight checkout gets ahead (local or unbound commits), then a bound
+    # checkout pulls from it with a stop revision; random operations before and after
+    for _ in range(20 if tier == "quick" else 150):
+        kinds = rng.choice([[False, True, True], [False, True, True, False]])
+        a, b = rng.sample([1, 2], 2)
+        pre = _gen_ops(rng, kinds, rng.randrange(0, 3))
+        if rng.random() < 0.25:
+            pre.append(["U", a])
+        na = rng.randrange(2, 6)
+        ahead = [["c", a, 1 if rng.random() < 0.8 else 0, -1] for _ in range(na)]
+        mid = rng.choice([[], [], [["u", b]], [["u", b]], [["c", 0, 0, -1], ["u", b]], [["c", b, 0, -1]]])
+        pulls = [["p", rng.choice([b, b, b, 0, len(kinds) - 1]), a,
+                  rng.randrange(1, na) if rng.random() < 0.8 else rng.randrange(0, 5)] for _ in range(rng.randrange(1, 3))]
+        post = _gen_ops(rng, kinds, rng.randrange(0, 3))
+        yield _case(kinds, rng.random() < 0.85, (pre + ahead + mid + pulls + post)[:12])
+    n = 90 if tier == "quick" else 900
     for _ in range(n):
         x = rng.random()
-        if x < 0.7:
+        if x < 0.55:
             kinds = STD
-        elif x < 0.85:
+        elif x < 0.8:
             kinds = [False, True, True, False]
         elif x < 0.93:
             kinds = [False, True, True]
@@ -254,6 +279,25 @@ def _fault_at(k):
         wt4.DirStateWorkingTree.update_basis_by_delta = orig_upd
 
 
+def _back(op):
+    return op[3] if len(op) > 3 else -1
+
+
+def _stop_revision(src, k):
+    """The k-th left-hand ancestor of the source tip (the oldest when the history is shorter)."""
+    if k < 0:
+        return None
+    src.lock_read()
+    try:
+        tip = src.last_revision()
+        if tip == b"null:":
+            return None
+        lh = [r for r in src.repository.get_graph().iter_lefthand_ancestry(tip, (b"null:",)) if r != b"null:"]
+    finally:
+        src.unlock()
+    return lh[min(k, len(lh) - 1)]
+
+
 EXPECTED = ("BoundBranchOutOfDate", "OutOfDateTree", "LocalRequiresBoundBranch", "DivergedBranches", "InjectedFault")
 
 
@@ -280,7 +324,7 @@ def _do(base, op, nrev):
             t.update()
         elif kind == "p":
             src = Branch.open(_path(base, 0)) if op[2] < 0 else WorkingTree.open(_path(base, op[2])).branch
-            t.pull(src)
+            t.pull(src, stop_revision=_stop_revision(src, _back(op)))
         elif kind == "b":
             t.branch.bind(Branch.open(_path(base, 0)))
         elif kind == "U":
@@ -335,7 +379,8 @@ def _coq_op(op):
     if k == "u":
         return "Update %d" % op[1]
     if k == "p":
-        return "Pull %d %s" % (op[1], "SMaster" if op[2] < 0 else "(SCo %d)" % op[2])
+        return "Pull %d %s %s" % (op[1], "SMaster" if op[2] < 0 else "(SCo %d)" % op[2],
+                                  "None" if _back(op) < 0 else "(Some %d)" % _back(op))
     if k == "b":
         return "Bind %d" % op[1]
     if k == "U":
@@ -424,7 +469,7 @@ def oracle(inp, obs):
             if not others_same:
                 return where + "update changed another checkout"
         elif op[0] == "p":
-            from_master = op[2] < 0 or not kinds[op[2]]
+            from_master = (op[2] < 0 or not kinds[op[2]]) and _back(op) < 0      # a plain pull from the master
             if st == Tag("ok"):
                 if heavy and bound0 and from_master and not _anc_opt(g, m1[1], b1[1]):
                     return where + "pull from the master left local %r without the master's tip %r" % (b1, m1)
@@ -436,6 +481,18 @@ def oracle(inp, obs):
                     return where + "pull left the tree basis off the branch tip"
             if not _anc_opt(g, b0[1], b1[1]):
                 return where + "pull dropped the old tip of the target"
+            # nothing but the requested revision is ever installed (pull -r: the stop revision, else the source tip)
+            sb0 = m0 if op[2] < 0 else cos0[op[2]][0]
+            want = sb0[1]
+            if _back(op) >= 0 and want is not None:
+                lh = daglib.lefthand(g, want)
+                want = lh[min(_back(op), len(lh) - 1)]
+            if m1[1] not in (m0[1], want):
+                return where + "pull moved the master to %r, neither its old tip %r nor the requested revision %r" % (m1, m0, want)
+            if b1[1] not in (b0[1], want):
+                return where + "pull moved the branch to %r, neither its old tip %r nor the requested revision %r" % (b1, b0, want)
+            if not others_same:
+                return where + "pull changed another checkout"
         elif op[0] == "U":
             clean = False
         # global clauses
@@ -481,7 +538,7 @@ def shrink(inp, fails):
 
 
 def distribution(inputs, observations):
-    d = {"ops": {}, "status": {}, "root_false": 0, "kinds": {}}
+    d = {"ops": {}, "status": {}, "root_false": 0, "kinds": {}, "pull_r_master_stopped_short": 0}
     for inp, obs in zip(inputs, observations):
         d["root_false"] += 0 if inp["root"] else 1
         k = "".join("H" if h else "L" for h in inp["kinds"])
@@ -489,7 +546,12 @@ def distribution(inputs, observations):
         if isinstance(obs, Err):
             d["status"]["driver-error"] = d["status"].get("driver-error", 0) + 1
             continue
-        for op, (st, _) in zip(inp["ops"], obs[1:]):
+        prev = obs[0]
+        for op, (st, after) in zip(inp["ops"], obs[1:]):
+            if op[0] == "p" and _back(op) >= 0 and op[2] >= 0 and inp["kinds"][op[2]] and inp["kinds"][op[1]] \
+                    and prev[1][op[1]][1] and after[0] != prev[0] and after[0][1] != prev[1][op[2]][0][1]:
+                d["pull_r_master_stopped_short"] += 1    # bound target, third source: master moved, but not to the source tip
+            prev = after
             key = op[0] + ("L" if op[0] == "c" and op[2] else "") + ("F" if op[0] == "c" and op[3] >= 0 else "")
             d["ops"][key] = d["ops"].get(key, 0) + 1
             s = key + ":" + str(st)
